@@ -140,6 +140,18 @@ theorem step_height (fx : Bool) (pos : Nat) (n : Node) (st : St) :
         have := heightList_mem q (select_mem _ _ _ _ hq)
         simp only [StepLt, Node.height, Pat.height]; omega
       · simp [StepLt]
+    | record sp fs =>
+      simp only [step]
+      split
+      · simp [StepLt]
+      · rename_i nsp v hsel
+        have hm : Pat.fieldVal nsp v ∈ fs := select_mem Pat.span pos fs _ (by rw [hsel])
+        have := heightList_mem _ hm
+        simp only [Pat.height] at this
+        split <;> simp only [StepLt, Node.height, Pat.height] <;> (try trivial) <;> omega
+      · simp [StepLt]
+    | fieldShort nsp b => simp [step, StepLt]
+    | fieldVal nsp v => simp [step, StepLt]
   | variant v =>
     cases v with
     | none => simp [step, StepLt]
